@@ -253,6 +253,14 @@ type vWorld struct {
 	pre      *vURL // nil: not configured
 	dcr      bool
 	init     bool
+	sf       string   // configuration: ScopeFilter variant (n none, d drop all, r keep *:read, x append extra:scope)
+	rr       bool     // configuration: RequestRefreshToken
+	ps       []string // scopes_supported of the protected-resource documents of the round
+	as       []string // scopes_supported of the authorization-server documents of the round
+	ts       []string // scope member of the token responses of the round
+	tsAbsent bool     // ... absent
+	nts      bool // configuration: NewTokenSource is set (its source wraps the default one)
+	ntFail   bool // this round: NewTokenSource returns an error
 	u        vURL
 	hm       bool
 	ch       []vChallenge
@@ -268,7 +276,8 @@ type vWorld struct {
 	// histories: a round after the first one on the same handler (op `again`: the handler
 	// configuration cimd/pre/dcr/init is the one of the case's `auth` record)
 	again     bool
-	round     int  // 0-based index of the round in its case
+	begin     bool // op `begin`: as `again`, but the call is left in flight (finished by a later `end <k>`)
+	round     int  // 0-based number of the attempt in its case (start order)
 	asChanged bool // this round asks another authorization server for metadata than the last round that got that far
 	afterOK   bool // an earlier round of the case installed a token source
 }
@@ -376,14 +385,29 @@ func (w *vWorld) encode() string {
 	if w.fetch == "R" {
 		f = "R|" + w.fState + "|" + w.fIss.tok()
 	}
-	if w.again {
-		return fmt.Sprintf("again st=%d u=%s hm=%s ch=%s hdr=%s prm=%s asm=%s reg=%s tok=%s f=%s sty=%d",
-			w.status, w.u.tok(), bit(w.hm), ch, hdr,
-			w.encodeMap("prm", w.prm), w.encodeMap("asm", w.asm), w.encodeMap("reg", w.reg), tok, f, w.sty)
+	tsTok := scTok(w.ts)
+	if w.tsAbsent {
+		tsTok = "-"
 	}
-	return fmt.Sprintf("auth st=%d cimd=%s pre=%s dcr=%s init=%s u=%s hm=%s ch=%s hdr=%s prm=%s asm=%s reg=%s tok=%s f=%s sty=%d",
+	if w.sf == "" {
+		w.sf = "n"
+	}
+	nt := "S"
+	if w.ntFail {
+		nt = "E"
+	}
+	if w.again {
+		kw := "again"
+		if w.begin {
+			kw = "begin"
+		}
+		return fmt.Sprintf(kw+" st=%d u=%s hm=%s ch=%s hdr=%s prm=%s asm=%s reg=%s tok=%s f=%s sty=%d nt=%s ps=%s as=%s ts=%s",
+			w.status, w.u.tok(), bit(w.hm), ch, hdr,
+			w.encodeMap("prm", w.prm), w.encodeMap("asm", w.asm), w.encodeMap("reg", w.reg), tok, f, w.sty, nt, scTok(w.ps), scTok(w.as), tsTok)
+	}
+	return fmt.Sprintf("auth st=%d cimd=%s pre=%s dcr=%s init=%s u=%s hm=%s ch=%s hdr=%s prm=%s asm=%s reg=%s tok=%s f=%s sty=%d nts=%s nt=%s ps=%s as=%s ts=%s sf=%s rr=%s",
 		w.status, bit(w.cimd), pre, bit(w.dcr), bit(w.init), w.u.tok(), bit(w.hm), ch, hdr,
-		w.encodeMap("prm", w.prm), w.encodeMap("asm", w.asm), w.encodeMap("reg", w.reg), tok, f, w.sty)
+		w.encodeMap("prm", w.prm), w.encodeMap("asm", w.asm), w.encodeMap("reg", w.reg), tok, f, w.sty, bit(w.nts), nt, scTok(w.ps), scTok(w.as), tsTok, w.sf, bit(w.rr))
 }
 
 func decodeResp(kind, s string) (vResp, error) {
@@ -420,9 +444,37 @@ func decodeResp(kind, s string) (vResp, error) {
 	return vResp{}, fmt.Errorf("bad response token %q", s)
 }
 
+func scTok(l []string) string {
+	if len(l) == 0 {
+		return "."
+	}
+	return strings.Join(l, ",")
+}
+
+func scList(t string) []string {
+	if t == "." || t == "" {
+		return nil
+	}
+	return strings.Split(t, ",")
+}
+
+// canonScopes: sorted, without duplicates (scope SETS are compared).
+func canonScopes(l []string) []string {
+	out := append([]string{}, l...)
+	sort.Strings(out)
+	k := 0
+	for i, x := range out {
+		if i == 0 || x != out[i-1] {
+			out[k] = x
+			k++
+		}
+	}
+	return out[:k]
+}
+
 func decodeWorld(op string) (*vWorld, error) {
 	toks := strings.Fields(op)
-	if len(toks) == 0 || (toks[0] != "auth" && toks[0] != "again") {
+	if len(toks) == 0 || (toks[0] != "auth" && toks[0] != "again" && toks[0] != "begin") {
 		return nil, fmt.Errorf("not an auth op")
 	}
 	kv := map[string]string{}
@@ -435,9 +487,25 @@ func decodeWorld(op string) (*vWorld, error) {
 	}
 	w := &vWorld{prm: map[string]vResp{}, asm: map[string]vResp{}, reg: map[string]vResp{}, tok: map[string][]string{}, order: map[string][]string{}}
 	var err error
-	w.again = toks[0] == "again"
+	w.again = toks[0] == "again" || toks[0] == "begin"
+	w.begin = toks[0] == "begin"
 	w.status, _ = strconv.Atoi(kv["st"])
 	w.cimd, w.dcr, w.init, w.hm = kv["cimd"] == "1", kv["dcr"] == "1", kv["init"] == "1", kv["hm"] == "1"
+	w.nts, w.ntFail = kv["nts"] == "1", kv["nt"] == "E"
+	w.sf, w.rr = kv["sf"], kv["rr"] == "1"
+	if w.sf == "" {
+		w.sf = "n"
+	}
+	w.ps, w.as, w.ts, w.tsAbsent = []string{"mcp:read"}, nil, nil, true
+	if t, ok := kv["ps"]; ok {
+		w.ps = scList(t)
+	}
+	if t, ok := kv["as"]; ok {
+		w.as = scList(t)
+	}
+	if t, ok := kv["ts"]; ok && t != "-" {
+		w.ts, w.tsAbsent = scList(t), false
+	}
 	if !w.again && kv["pre"] != "none" {
 		p, err := vParse(kv["pre"])
 		if err != nil {
@@ -525,6 +593,8 @@ const (
 )
 
 type vRun struct {
+	sc      string // " sc=<scope set of the authorization URL>" once the fetcher was called
+	onToken func() // called before a token request is answered (the attempt may be held here)
 	w      *vWorld
 	rev    map[string]string // concrete string -> url token
 	events []string
@@ -662,6 +732,12 @@ func credOf(id string) string {
 	return "?"
 }
 
+var vPad = strings.Repeat("a", 1<<20)
+
+type vErrReader struct{}
+
+func (vErrReader) Read([]byte) (int, error) { return 0, errors.New("scripted body error") }
+
 type vErrTransport struct{}
 
 func (vErrTransport) Error() string { return "scripted transport error" }
@@ -681,7 +757,10 @@ func vHTTP(code int, ct, body string) *http.Response {
 func (r *vRun) pick(codes ...int) int { return codes[r.w.sty%len(codes)] }
 
 func (r *vRun) prmJSON(d *vPrmDoc) string {
-	m := map[string]any{"resource": d.resource.render(false), "scopes_supported": []string{"mcp:read"}}
+	m := map[string]any{"resource": d.resource.render(false)}
+	if len(r.w.ps) > 0 {
+		m["scopes_supported"] = r.w.ps
+	}
 	if d.as != nil {
 		l := []string{}
 		for _, a := range d.as {
@@ -712,6 +791,9 @@ func (r *vRun) asmJSON(a *vAsmDoc) string {
 	}
 	if strings.Contains(a.flags, "k") {
 		m["code_challenge_methods_supported"] = []string{"S256"}
+	}
+	if len(r.w.as) > 0 {
+		m["scopes_supported"] = r.w.as
 	}
 	if strings.Contains(a.flags, "c") {
 		m["client_id_metadata_document_supported"] = true
@@ -751,6 +833,10 @@ func (r *vRun) regJSON(x vResp) string {
 		}
 	}
 	m["redirect_uris"] = red
+	if r.w.sty%2 == 0 {
+		m["client_id_issued_at"] = 1700000000
+		m["client_secret_expires_at"] = 1800000000
+	}
 	switch x.regMethod {
 	case "n":
 		m["token_endpoint_auth_method"] = "none"
@@ -781,6 +867,9 @@ func (r *vRun) getResp(x vResp, body func() string) (*http.Response, error) {
 		return vHTTP(200, []string{"text/html", "", "application/jsonx; charset=utf-8"}[r.w.sty%3], body()), nil
 	case "J":
 		return vHTTP(200, "application/json", `{"issuer": [`), nil
+	case "L":
+		b := strings.TrimSpace(body())
+		return vHTTP(200, "application/json", b[:len(b)-1]+`,"zzpad":"`+vPad+`"}`), nil
 	case "D":
 		return vHTTP(200, []string{"application/json", "application/json; charset=utf-8"}[r.w.sty%2], body()), nil
 	}
@@ -826,6 +915,13 @@ func (r *vRun) RoundTrip(req *http.Request) (*http.Response, error) {
 			return vHTTP(400, "application/json", `{"error":"invalid_redirect_uri","error_description":"no"}`), nil
 		case "F3":
 			return vHTTP(302, "", ""), nil
+		case "F4J": // 400 whose error document cannot be decoded
+			return vHTTP(400, "application/json", `{"error": `), nil
+		case "FB": // the body cannot be read
+			resp := vHTTP(r.pick(201, 200, 400), "application/json", "")
+			resp.Body = io.NopCloser(vErrReader{})
+			resp.ContentLength = -1
+			return resp, nil
 		case "FJ":
 			return vHTTP(r.pick(201, 200), "application/json", `{"client_id": `), nil
 		case "R":
@@ -853,6 +949,9 @@ func (r *vRun) RoundTrip(req *http.Request) (*http.Response, error) {
 			}
 		}
 		r.events = append(r.events, "T:"+t+":"+credOf(id))
+		if r.onToken != nil {
+			r.onToken()
+		}
 		l, ok := r.w.tok[t]
 		if !ok || n >= len(l) {
 			// the Lean world answers `fail` for anything unscripted
@@ -860,10 +959,16 @@ func (r *vRun) RoundTrip(req *http.Request) (*http.Response, error) {
 		}
 		code := l[n]
 		switch code {
-		case "G":
-			return vHTTP(200, "application/json", `{"access_token":"at-1","token_type":"Bearer"}`), nil
-		case "X":
-			return vHTTP(200, "application/json", `{"access_token":"at-1","token_type":"Bearer","expires_in":1}`), nil
+		case "G", "X":
+			m := map[string]any{"access_token": "at-1", "token_type": "Bearer"}
+			if code == "X" {
+				m["expires_in"] = 1
+			}
+			if !r.w.tsAbsent {
+				m["scope"] = strings.Join(r.w.ts, " ")
+			}
+			b, _ := json.Marshal(m)
+			return vHTTP(200, "application/json", string(b)), nil
 		case "FT":
 			return nil, vErrTransport{}
 		case "F4":
@@ -885,21 +990,34 @@ func (r *vRun) RoundTrip(req *http.Request) (*http.Response, error) {
 
 var vFetchErr = errors.New("scripted fetcher error")
 
-func (r *vRun) fetcher(ctx context.Context, args *AuthorizationArgs) (*AuthorizationResult, error) {
+// fetcher is the AuthorizationCodeFetcher of one attempt: it records the authorization URL, parks until
+// the harness lets the attempt go on (`end`), and answers as the world says. stateOf resolves the state
+// generated for another attempt of the handler ("" if that attempt never reached its fetcher).
+func (r *vRun) fetcher(ctx context.Context, args *AuthorizationArgs, park func(state string), stateOf func(k int) string) (*AuthorizationResult, error) {
 	ep, q, _ := strings.Cut(args.URL, "?")
 	vals, _ := url.ParseQuery(q)
 	r.events = append(r.events, "F:"+r.classify(ep)+":"+credOf(vals.Get("client_id"))+":"+r.classify(vals.Get("resource")))
+	r.sc = " sc=" + scTok(canonScopes(strings.Fields(vals.Get("scope"))))
+	park(vals.Get("state"))
 	if r.w.fetch != "R" {
 		return nil, vFetchErr
 	}
 	res := &AuthorizationResult{Code: "code-1", Iss: r.w.fIss.render(false)}
-	switch r.w.fState {
-	case "g":
+	switch {
+	case r.w.fState == "g":
 		res.State = vals.Get("state")
-	case "f":
+	case r.w.fState == "f":
 		res.State = "forged" + vals.Get("state")
-	case "e":
+	case r.w.fState == "e":
 		res.State = ""
+	case strings.HasPrefix(r.w.fState, "s"):
+		// the state generated for attempt k of this handler (in flight, finished, or this one)
+		k, err := strconv.Atoi(r.w.fState[1:])
+		if st := stateOf(k); err == nil && st != "" {
+			res.State = st
+		} else {
+			res.State = "state-of-nobody-" + r.w.fState[1:]
+		}
 	}
 	return res, nil
 }
@@ -949,22 +1067,72 @@ func classifyErr(err error) string {
 		return "iss-unexpected"
 	case has("token exchange failed"):
 		return "exch"
+	case errors.Is(err, vNtsErr) && has("constructing token source failed"):
+		return "ts-err"
 	case has("token expired and refresh token is not set"):
 		return "post"
 	}
 	return "other:" + hxs(s)
 }
 
-// vHandler is ONE AuthorizationCodeHandler and what the harness remembers of its rounds. The injected
+// vHandler is ONE AuthorizationCodeHandler and what the harness remembers of its attempts. The injected
 // http.Client and fetcher are fixed when the handler is created; they delegate to the scripted world
-// of the round in progress.
+// of the attempt the request belongs to (the attempt travels in the context given to Authorize).
 type vHandler struct {
-	h       *AuthorizationCodeHandler
-	cfgW    *vWorld // the world of the `auth` record: the handler configuration
-	initial oauth2.TokenSource
-	seen    []oauth2.TokenSource // seen[k]: what TokenSource() returned after round k
-	cur     *vRun
-	lastAS  string // the authorization server the last round that reached one asked for metadata
+	h         *AuthorizationCodeHandler
+	cfgW      *vWorld // the world of the `auth` record: the handler configuration
+	initial   oauth2.TokenSource
+	att       []*vAttempt // every Authorize call of the case, in start order
+	installed []vInstalled
+	cur       *vRun
+	finishing *vAttempt // the attempt whose Authorize call is running right now (one at a time)
+	lastAS    string // the authorization server the last round that reached one asked for metadata
+}
+
+type vInstalled struct {
+	ts oauth2.TokenSource
+	k  int // the attempt during whose finish this source first appeared
+}
+
+// vAttempt is one Authorize call: it runs in its own goroutine, parks in the fetcher, and goes on when
+// the harness says so. All hand-overs are by channel: no timing.
+type vAttempt struct {
+	k        int
+	w        *vWorld
+	run      *vRun
+	parked   chan string   // fetcher -> harness: the state generated for this attempt
+	release  chan struct{} // harness -> fetcher
+	done     chan struct{}
+	state    string
+	isParked bool
+	ended    bool // its `end` record was printed
+	holdTok    bool          // hold the attempt at its first token request
+	tokParked  chan struct{} // RoundTrip -> harness
+	tokRelease chan struct{} // harness -> RoundTrip
+	held       bool
+	before   oauth2.TokenSource
+	err      error
+	panicked bool
+	obs      string // set when the attempt could not be started
+	inst     string // "" until the call has returned: did TokenSource() change while it finished
+}
+
+type vAttKey struct{}
+
+var vNtsErr = errors.New("scripted NewTokenSource error")
+
+// vWrappedTS is what the configured NewTokenSource returns: the default source, wrapped.
+type vWrappedTS struct{ oauth2.TokenSource }
+
+// newTokenSource is the configured constructor. It is called with a context derived from
+// context.Background() (not the attempt's), so it answers for the attempt that is finishing.
+func (hs *vHandler) newTokenSource(ctx context.Context, cfg *oauth2.Config, tok *oauth2.Token) (oauth2.TokenSource, error) {
+	if a := hs.finishing; a != nil {
+		if a.w.ntFail {
+			return nil, vNtsErr
+		}
+	}
+	return &vWrappedTS{cfg.TokenSource(ctx, tok)}, nil
 }
 
 // contactedAS returns the token of the authorization-server URL whose metadata locations the
@@ -996,11 +1164,26 @@ func contactedAS(obs string) string {
 }
 
 func (hs *vHandler) RoundTrip(req *http.Request) (*http.Response, error) {
-	return hs.cur.RoundTrip(req)
+	if a, ok := req.Context().Value(vAttKey{}).(*vAttempt); ok {
+		return a.run.RoundTrip(req)
+	}
+	return hs.cur.RoundTrip(req) // a request that lost its context: booked on the attempt started last
 }
 
 func (hs *vHandler) fetcher(ctx context.Context, args *AuthorizationArgs) (*AuthorizationResult, error) {
-	return hs.cur.fetcher(ctx, args)
+	a, ok := ctx.Value(vAttKey{}).(*vAttempt)
+	if !ok {
+		return nil, errors.New("fetcher called without the attempt's context")
+	}
+	return a.run.fetcher(ctx, args, func(st string) {
+		a.parked <- st
+		<-a.release
+	}, func(k int) string {
+		if k < 0 || k >= len(hs.att) {
+			return ""
+		}
+		return hs.att[k].state
+	})
 }
 
 // newHandler creates the handler an `auth` record describes.
@@ -1031,6 +1214,26 @@ func newHandler(w *vWorld) (hs *vHandler, obs string) {
 		cfg.DynamicClientRegistrationConfig = &DynamicClientRegistrationConfig{Metadata: &oauthex.ClientRegistrationMetadata{
 			RedirectURIs: []string{"http://localhost:7777/callback"}, ClientName: "verif"}}
 	}
+	if w.nts {
+		cfg.NewTokenSource = hs.newTokenSource
+	}
+	cfg.RequestRefreshToken = w.rr
+	switch w.sf {
+	case "d":
+		cfg.ScopeFilter = func([]string) []string { return nil }
+	case "r":
+		cfg.ScopeFilter = func(l []string) []string {
+			var out []string
+			for _, x := range l {
+				if strings.HasSuffix(x, ":read") {
+					out = append(out, x)
+				}
+			}
+			return out
+		}
+	case "x":
+		cfg.ScopeFilter = func(l []string) []string { return append(append([]string{}, l...), "extra:scope") }
+	}
 	if w.init {
 		hs.initial = vSentinelTS{}
 		cfg.InitialTokenSource = hs.initial
@@ -1043,54 +1246,161 @@ func newHandler(w *vWorld) (hs *vHandler, obs string) {
 	return hs, ""
 }
 
-// round runs one Authorize call of the handler against the world w.
-func (hs *vHandler) round(w *vWorld) (obs string) {
+// begin starts one Authorize call of the handler against the world w and returns when it is parked in
+// the fetcher ("parked") or has ended ("done").
+func (hs *vHandler) begin(w *vWorld) (a *vAttempt, obs string) {
 	if w.again {
 		c := hs.cfgW
-		w.cimd, w.pre, w.dcr, w.init = c.cimd, c.pre, c.dcr, c.init
+		w.cimd, w.pre, w.dcr, w.init, w.nts, w.sf, w.rr = c.cimd, c.pre, c.dcr, c.init, c.nts, c.sf, c.rr
 	}
-	w.round = len(hs.seen)
+	w.round = len(hs.att)
 	r := &vRun{w: w, upper: w.sty%5 == 1} // mixed-case schemes only in fields that are not compared as strings
 	r.addAll()
 	hs.cur = r
-	defer func() {
-		if p := recover(); p != nil {
-			obs = "panic"
+	a = &vAttempt{k: len(hs.att), w: w, run: r, parked: make(chan string), release: make(chan struct{}), done: make(chan struct{}),
+		tokParked: make(chan struct{}), tokRelease: make(chan struct{})}
+	first := true
+	r.onToken = func() {
+		if a.holdTok && first {
+			first = false
+			a.tokParked <- struct{}{}
+			<-a.tokRelease
 		}
-	}()
-	req, err := http.NewRequest(http.MethodPost, w.u.render(false), nil)
+	}
+	hs.att = append(hs.att, a)
+	ctx := context.WithValue(context.Background(), vAttKey{}, a)
+	req, err := http.NewRequestWithContext(ctx, http.MethodPost, w.u.render(false), nil)
 	if err != nil {
-		return "badurl"
+		a.obs = "badurl"
+		close(a.done)
+		return a, "done"
 	}
 	hd := http.Header{}
 	for _, v := range w.hdr {
 		hd.Add("WWW-Authenticate", v)
 	}
-	before, _ := hs.h.TokenSource(context.Background())
+	a.before, _ = hs.h.TokenSource(context.Background())
 	resp := &http.Response{StatusCode: w.status, Header: hd, Body: io.NopCloser(strings.NewReader("")), Request: req}
-	err = hs.h.Authorize(context.Background(), req, resp)
-	ts, _ := hs.h.TokenSource(context.Background())
-	inst := "0"
-	if ts != before {
-		inst = "1"
-	}
-	cur := strconv.Itoa(len(hs.seen))
-	if ts == hs.initial {
-		cur = "i"
-	} else {
-		for k, x := range hs.seen {
-			if x == ts {
-				cur = strconv.Itoa(k)
-				break
+	hs.finishing = a
+	go func() {
+		defer close(a.done)
+		defer func() {
+			if p := recover(); p != nil {
+				a.panicked = true
 			}
+		}()
+		a.err = hs.h.Authorize(ctx, req, resp)
+	}()
+	select {
+	case a.state = <-a.parked:
+		a.isParked = true
+		return a, "parked"
+	case <-a.done:
+		hs.observe(a) // books `inst` now: the call has returned; what is served is read again at its `end` record
+		return a, "done"
+	}
+}
+
+// observe prints what attempt a did, once it has returned.
+func (hs *vHandler) observe(a *vAttempt) string {
+	if a.panicked {
+		return "panic"
+	}
+	ts, _ := hs.h.TokenSource(context.Background())
+	if a.inst == "" {
+		a.inst = "0"
+		if ts != a.before {
+			a.inst = "1"
 		}
 	}
-	hs.seen = append(hs.seen, ts)
-	lg := "."
-	if len(r.events) > 0 {
-		lg = strings.Join(r.events, ",")
+	inst := a.inst
+	cur, found := "i", false
+	for _, x := range hs.installed {
+		if x.ts == ts {
+			cur, found = strconv.Itoa(x.k), true
+			break
+		}
 	}
-	return "out=" + classifyErr(err) + " inst=" + inst + " cur=" + cur + " log=" + lg
+	if !found && ts != hs.initial {
+		// a source not seen before: it appeared while this attempt finished
+		hs.installed = append(hs.installed, vInstalled{ts, a.k})
+		cur = strconv.Itoa(a.k)
+	}
+	lg := "."
+	if len(a.run.events) > 0 {
+		lg = strings.Join(a.run.events, ",")
+	}
+	return "out=" + classifyErr(a.err) + " inst=" + inst + " cur=" + cur + " log=" + lg + a.run.sc
+}
+
+// answer lets the fetcher of attempt k return and holds the attempt at its first token request ("held");
+// "done" if its Authorize call returned without one (what it did is reported by its `end` record).
+func (hs *vHandler) answer(k int) string {
+	if k < 0 || k >= len(hs.att) || hs.att[k].ended {
+		return "no-such-attempt"
+	}
+	a := hs.att[k]
+	if !a.isParked || a.held || a.inst != "" {
+		return "done"
+	}
+	a.holdTok = true
+	a.before, _ = hs.h.TokenSource(context.Background())
+	hs.finishing = a
+	close(a.release)
+	a.isParked = false
+	select {
+	case <-a.tokParked:
+		a.held = true
+		return "held"
+	case <-a.done:
+		hs.observe(a)
+		return "done"
+	}
+}
+
+// end lets attempt k run to its end (from the fetcher, or from the token request it is held at) and waits
+// until its Authorize call has returned.
+func (hs *vHandler) end(k int) (a *vAttempt, obs string) {
+	if k < 0 || k >= len(hs.att) || hs.att[k].ended {
+		return nil, "no-such-attempt"
+	}
+	a = hs.att[k]
+	a.ended = true
+	if a.obs != "" {
+		return a, a.obs
+	}
+	switch {
+	case a.held:
+		a.before, _ = hs.h.TokenSource(context.Background())
+		hs.finishing = a
+		close(a.tokRelease)
+		<-a.done
+	case a.isParked:
+		a.before, _ = hs.h.TokenSource(context.Background())
+		hs.finishing = a
+		close(a.release)
+		<-a.done
+	}
+	return a, hs.observe(a)
+}
+
+// abandon ends every attempt still in flight (a case must not leave goroutines behind).
+func (hs *vHandler) abandon() {
+	if hs == nil {
+		return
+	}
+	for k := range hs.att {
+		if !hs.att[k].ended {
+			hs.end(k)
+		}
+	}
+}
+
+// round runs one Authorize call of the handler against the world w from start to end.
+func (hs *vHandler) round(w *vWorld) (obs string) {
+	a, _ := hs.begin(w)
+	_, obs = hs.end(a.k)
+	return obs
 }
 
 // ---------------------------------------------------------------------------------------------
@@ -1168,7 +1478,23 @@ func (g *vGen) set(name string, m map[string]vResp, k vURL, r vResp) {
 	g.w.order[name] = append(g.w.order[name], t)
 }
 
+var vScopePool = []string{"mcp:read", "mcp:write", "files:read", "files:write", "offline_access", "admin"}
+
+// scopeSet draws a subset of the pool (each member with probability pct), in pool order.
+func (g *vGen) scopeSet(pct int) []string {
+	var out []string
+	for _, x := range vScopePool {
+		if g.p(pct) {
+			out = append(out, x)
+		}
+	}
+	return out
+}
+
 func (g *vGen) failCode() string {
+	if g.rng.Intn(40) == 0 {
+		return "L" // a document larger than getJSON's 1 MiB limit
+	}
 	return []string{"S4", "S4", "S4", "S5", "S3", "S2", "C", "J", "T"}[g.rng.Intn(9)]
 }
 
@@ -1293,7 +1619,7 @@ func (g *vGen) world() *vWorld {
 	cfgDraw := g.rng.Intn(10)
 	if g.base != nil {
 		cfgDraw = -1
-		w.cimd, w.pre, w.dcr, w.init = g.base.cimd, g.base.pre, g.base.dcr, g.base.init
+		w.cimd, w.pre, w.dcr, w.init, w.nts, w.sf, w.rr = g.base.cimd, g.base.pre, g.base.dcr, g.base.init, g.base.nts, g.base.sf, g.base.rr
 	}
 	switch cfgDraw {
 	case -1:
@@ -1314,6 +1640,9 @@ func (g *vGen) world() *vWorld {
 	}
 	if g.base == nil {
 		w.init = g.p(30)
+		w.nts = g.p(25)
+		w.sf = []string{"n", "n", "n", "n", "n", "n", "n", "d", "r", "x"}[g.rng.Intn(10)]
+		w.rr = g.p(35)
 	}
 	// the MCP server URL
 	switch {
@@ -1483,7 +1812,7 @@ func (g *vGen) world() *vWorld {
 					r.regURLs = []vURL{g.unsafeURL()}
 				}
 			default:
-				r = vResp{code: []string{"FT", "F5", "F4", "FJ", "F3"}[g.rng.Intn(5)]}
+				r = vResp{code: []string{"FT", "F5", "F4", "FJ", "F3", "F4J", "FB"}[g.rng.Intn(7)]}
 			}
 			g.set("reg", w.reg, d.reg, r)
 		}
@@ -1609,7 +1938,17 @@ func (g *vGen) renderHeader() {
 			ps = append(ps, `error="invalid_token"`)
 		}
 		if g.p(40) {
-			ps = append(ps, `scope="mcp:read mcp:write"`)
+			sc := `scope="mcp:read mcp:write"`
+			switch {
+			case g.p(35):
+				// (an empty value would make the header malformed: `no value for auth param`)
+				if set := g.scopeSet(35); len(set) > 0 {
+					sc = `scope="` + strings.Join(set, []string{" ", "  ", "\t"}[g.rng.Intn(3)]) + `"`
+				}
+			case g.p(10):
+				sc = `scope=files:write`
+			}
+			ps = append(ps, sc)
 		}
 		g.rng.Shuffle(len(ps), func(a, b int) { ps[a], ps[b] = ps[b], ps[a] })
 		sep := []string{", ", ",", " , "}[g.rng.Intn(3)]
@@ -1634,6 +1973,243 @@ func (g *vGen) renderHeader() {
 	if cur != "" {
 		w.hdr = append(w.hdr, cur)
 	}
+}
+
+// ---------------------------------------------------------------------------------------------
+// handler construction (`new` records): NewAuthorizationCodeHandler, isNonRootHTTPSURL,
+// inferApplicationType, ClientCredentials.Validate against McpModel/OAuth/NewHandler.lean
+
+var vRedirKinds = []string{"x", "l", "r", "c"}
+
+// redirString renders redirect URI `id`; its kind is fixed by the id (kind = id mod 4), so that equal
+// ids are equal strings.
+func redirString(id int) string {
+	switch vRedirKinds[id%4] {
+	case "x":
+		return fmt.Sprintf("://bad%d", id)
+	case "l":
+		return fmt.Sprintf([]string{"http://localhost:%d/cb", "http://127.0.0.1:%d/cb", "https://[::1]:%d/cb"}[(id/4)%3], 7000+id)
+	case "r":
+		return fmt.Sprintf([]string{"https://app%d.example.com/cb", "http://app%d.example.com/cb"}[(id/4)%2], id)
+	}
+	return fmt.Sprintf([]string{"com.example.app%d:/cb", "app%d.example/cb"}[(id/4)%2], id)
+}
+
+// redirKindOf classifies a concrete string the way the property's reading does (net/url + IsLoopback).
+func redirKindOf(s string) string {
+	u, err := url.Parse(s)
+	if err != nil {
+		return "x"
+	}
+	if u.Scheme == "http" || u.Scheme == "https" {
+		if util.IsLoopback(u.Hostname()) {
+			return "l"
+		}
+		return "r"
+	}
+	return "c"
+}
+
+func appTypeString(t string) string {
+	switch {
+	case t == "u":
+		return ""
+	case t == "n":
+		return "native"
+	case t == "w":
+		return "web"
+	}
+	return "service-" + t[1:]
+}
+
+func appTypeTok(s string) string {
+	switch {
+	case s == "":
+		return "u"
+	case s == "native":
+		return "n"
+	case s == "web":
+		return "w"
+	case strings.HasPrefix(s, "service-"):
+		return "o" + s[len("service-"):]
+	}
+	return "?" + hxs(s)
+}
+
+func newRun(op string) (obs string) {
+	defer func() {
+		if p := recover(); p != nil {
+			obs = "panic"
+		}
+	}()
+	kv := map[string]string{}
+	for _, t := range strings.Fields(op)[1:] {
+		k, v, _ := strings.Cut(t, "=")
+		kv[k] = v
+	}
+	if kv["nil"] == "1" {
+		_, err := NewAuthorizationCodeHandler(nil)
+		return classifyNewErr(err)
+	}
+	cfg := &AuthorizationCodeHandlerConfig{}
+	if kv["fetcher"] == "1" {
+		cfg.AuthorizationCodeFetcher = func(context.Context, *AuthorizationArgs) (*AuthorizationResult, error) { return nil, vFetchErr }
+	}
+	if c := kv["cimd"]; c != "-" {
+		if len(c) != 3 {
+			return "bad-op"
+		}
+		u := map[string]string{"111": "https://client.example/cimd.json", "110": "https://client.example", "101": "http://client.example/cimd.json",
+			"100": "ftp://client.example", "011": "://bad/https", "010": "://bad", "001": "://bad/x", "000": "://"}[c]
+		// the string must have the class the token claims
+		pu, err := url.Parse(u)
+		if (err == nil) != (c[0] == '1') || (err == nil && ((pu.Scheme == "https") != (c[1] == '1') || (pu.Path != "") != (c[2] == '1'))) {
+			return "pool-wrong:" + hxs(u)
+		}
+		cfg.ClientIDMetadataDocumentConfig = &ClientIDMetadataDocumentConfig{URL: u}
+	}
+	if p := kv["pre"]; p != "-" {
+		if len(p) != 2 {
+			return "bad-op"
+		}
+		cc := &oauthex.ClientCredentials{ClientID: vPreID}
+		if p[0] == '1' {
+			cc.ClientID = ""
+		}
+		switch p[1] {
+		case '0':
+			cc.ClientSecretAuth = &oauthex.ClientSecretAuth{ClientSecret: vPreSecret}
+		case '1':
+			cc.ClientSecretAuth = &oauthex.ClientSecretAuth{}
+		}
+		cfg.PreregisteredClient = cc
+	}
+	var meta *oauthex.ClientRegistrationMetadata
+	if d := kv["dcr"]; d != "-" {
+		f := strings.Split(d, ":")
+		if len(f) != 3 {
+			return "bad-op"
+		}
+		dc := &DynamicClientRegistrationConfig{}
+		if f[0] != "1" {
+			meta = &oauthex.ClientRegistrationMetadata{ClientName: "verif", ApplicationType: appTypeString(f[1])}
+			if f[2] != "." {
+				for _, r := range strings.Split(f[2], ",") {
+					ids, kind, _ := strings.Cut(r, ".")
+					id, err := strconv.Atoi(ids)
+					if err != nil || redirKindOf(redirString(id)) != kind {
+						return "pool-wrong:" + hxs(r)
+					}
+					meta.RedirectURIs = append(meta.RedirectURIs, redirString(id))
+				}
+			}
+			dc.Metadata = meta
+		}
+		cfg.DynamicClientRegistrationConfig = dc
+	}
+	if rd := kv["rd"]; rd != "-" {
+		id, err := strconv.Atoi(rd)
+		if err != nil {
+			return "bad-op"
+		}
+		cfg.RedirectURL = redirString(id)
+	}
+	h, err := NewAuthorizationCodeHandler(cfg)
+	if err != nil {
+		return classifyNewErr(err)
+	}
+	rdTok := "?" + hxs(h.config.RedirectURL)
+	for id := 0; id < 48; id++ {
+		if redirString(id) == h.config.RedirectURL {
+			rdTok = strconv.Itoa(id)
+			break
+		}
+	}
+	at := "-"
+	if meta != nil {
+		at = appTypeTok(meta.ApplicationType)
+	}
+	return "ok rd=" + rdTok + " at=" + at
+}
+
+func classifyNewErr(err error) string {
+	if err == nil {
+		return "ok-nil-config"
+	}
+	s := err.Error()
+	for _, c := range [][2]string{
+		{"config must be provided", "nil-config"}, {"at least one client registration configuration", "no-registration"},
+		{"AuthorizationCodeFetcher is required", "no-fetcher"}, {"client ID metadata document URL must be", "cimd-url"},
+		{"invalid PreregisteredClient configuration", "pre-invalid"}, {"requires non-nil Metadata", "dcr-no-metadata"},
+		{"Metadata.RedirectURIs is required", "dcr-no-redirects"}, {"is not in the list of allowed redirect URIs", "redirect-not-allowed"},
+		{"conflicts with the application type inferred", "app-type-conflict"}, {"RedirectURL is required", "no-redirect"}} {
+		if strings.Contains(s, c[0]) {
+			return "err=" + c[1]
+		}
+	}
+	return "err=other:" + hxs(s)
+}
+
+// genNew draws a configuration: mostly usable ones with one defect, some with several.
+func genNew(rng *rand.Rand) string {
+	p := func(pct int) bool { return rng.Intn(100) < pct }
+	nilc, cimd, pre, dcr, fetcher, rd := "0", "-", "-", "-", "1", "-"
+	if p(2) {
+		nilc = "1"
+	}
+	if p(40) {
+		cimd = "111"
+		if p(35) {
+			cimd = []string{"110", "101", "100", "011", "010", "001", "000"}[rng.Intn(7)]
+		}
+	}
+	if p(40) {
+		pre = "00"
+		if p(35) {
+			pre = []string{"0n", "01", "10", "1n", "11"}[rng.Intn(5)]
+		}
+	}
+	if p(55) {
+		n := rng.Intn(5)
+		if p(10) {
+			n = 0
+		}
+		// mostly one family of redirect URIs (so that a type can be inferred), sometimes mixed / unparsable
+		fam := []int{1, 2, 3}[rng.Intn(3)]
+		var rs []string
+		var ids []int
+		for i := 0; i < n; i++ {
+			k := fam
+			if p(15) {
+				k = rng.Intn(4)
+			} else if fam != 2 && p(30) {
+				k = []int{1, 3}[rng.Intn(2)]
+			}
+			id := k + 4*rng.Intn(6)
+			ids = append(ids, id)
+			rs = append(rs, fmt.Sprintf("%d.%s", id, vRedirKinds[id%4]))
+		}
+		at := "u"
+		if p(50) {
+			at = []string{"n", "w", "n", "w", "o1"}[rng.Intn(5)]
+		}
+		l := "."
+		if len(rs) > 0 {
+			l = strings.Join(rs, ",")
+		}
+		dcr = bit(p(6)) + ":" + at + ":" + l
+		if len(ids) > 0 && p(45) {
+			rd = strconv.Itoa(ids[rng.Intn(len(ids))])
+		} else if p(25) {
+			rd = strconv.Itoa(rng.Intn(24))
+		}
+	} else if p(85) {
+		rd = strconv.Itoa(rng.Intn(24))
+	}
+	if p(7) {
+		fetcher = "0"
+	}
+	return fmt.Sprintf("new nil=%s cimd=%s pre=%s dcr=%s fetcher=%s rd=%s", nilc, cimd, pre, dcr, fetcher, rd)
 }
 
 // ---------------------------------------------------------------------------------------------
@@ -1677,11 +2253,47 @@ func flowTags(w *vWorld, obs string) []string {
 	if w.hm {
 		tags = append(tags, "malformed-header")
 	}
-	if w.fetch == "R" && w.fState != "g" {
+	if w.fetch == "R" && strings.HasPrefix(w.fState, "s") {
+		switch k, _ := strconv.Atoi(w.fState[1:]); {
+		case k == w.round:
+			tags = append(tags, "own-state-by-number")
+		case k < w.round:
+			tags = append(tags, "state-of-earlier-attempt")
+		default:
+			tags = append(tags, "state-of-later-attempt")
+		}
+		if strings.Contains(obs, "T:") {
+			tags = append(tags, "exchanged-on-numbered-state")
+		}
+	} else if w.fetch == "R" && w.fState != "g" {
 		tags = append(tags, "forged-state")
 	}
 	if w.init {
 		tags = append(tags, "initial-ts")
+	}
+	if _, sc, ok := strings.Cut(obs, " sc="); ok {
+		tags = append(tags, "scope-filter="+w.sf)
+		switch {
+		case sc == ".":
+			tags = append(tags, "scopes-none")
+		case strings.Contains(sc, "offline_access"):
+			tags = append(tags, "scopes-offline-access")
+		}
+		if strings.Contains(sc, "extra:scope") {
+			tags = append(tags, "scopes-added-by-filter")
+		}
+		if w.afterOK {
+			tags = append(tags, "scopes-after-a-grant")
+		}
+		if !w.tsAbsent && strings.Contains(obs, "out=ok") {
+			tags = append(tags, "granted-scopes-from-token-response")
+		}
+	}
+	if w.nts {
+		tags = append(tags, "custom-token-source")
+		if w.ntFail && strings.Contains(obs, "T:") {
+			tags = append(tags, "constructor-error-after-exchange")
+		}
 	}
 	switch {
 	case w.round == 1:
@@ -1725,11 +2337,18 @@ func readOpsFile(p string) ([]string, error) {
 
 func runOps(out *verifOut, cs string, ops []string, tag string) {
 	out.line(cs, "reset", "ok", "reset")
-	var hs *vHandler // the handler of the case: created by `auth`, used again by `again`
+	var hs *vHandler // the handler of the case: created by `auth`, used again by `again` / `begin` / `end`
+	defer func() { hs.abandon() }()
+	book := func(w *vWorld, obs string) {
+		if as := contactedAS(obs); as != "" {
+			w.asChanged = hs.lastAS != "" && hs.lastAS != as
+			hs.lastAS = as
+		}
+	}
 	for _, op := range ops {
 		switch {
 		case op == "reset":
-		case strings.HasPrefix(op, "auth ") || strings.HasPrefix(op, "again "):
+		case strings.HasPrefix(op, "auth ") || strings.HasPrefix(op, "again ") || strings.HasPrefix(op, "begin "):
 			w, err := decodeWorld(op)
 			if err != nil {
 				out.line(cs, op, "bad-op", tag)
@@ -1737,22 +2356,70 @@ func runOps(out *verifOut, cs string, ops []string, tag string) {
 			}
 			var obs string
 			if !w.again {
+				hs.abandon()
 				hs, obs = newHandler(w)
 			} else if hs == nil {
 				obs = "no-handler"
 			}
-			if obs == "" {
-				w.afterOK = false
-				for _, x := range hs.seen {
-					w.afterOK = w.afterOK || x != hs.initial
-				}
-				obs = hs.round(w)
-				if as := contactedAS(obs); as != "" {
-					w.asChanged = hs.lastAS != "" && hs.lastAS != as
-					hs.lastAS = as
+			if obs != "" {
+				out.line(cs, op, obs, append(flowTags(w, obs), tag)...)
+				continue
+			}
+			w.afterOK = len(hs.installed) > 0
+			if w.begin {
+				_, obs = hs.begin(w)
+				out.line(cs, op, obs, tag, "begin", "begin-"+obs)
+				continue
+			}
+			obs = hs.round(w)
+			book(w, obs)
+			out.line(cs, op, obs, append(flowTags(w, obs), tag)...)
+		case strings.HasPrefix(op, "answer "):
+			k, err := strconv.Atoi(strings.TrimSpace(op[7:]))
+			if err != nil || hs == nil {
+				out.line(cs, op, "bad-op", tag)
+				continue
+			}
+			obs := hs.answer(k)
+			out.line(cs, op, obs, tag, "answer", "answer-"+obs)
+		case strings.HasPrefix(op, "end "):
+			k, err := strconv.Atoi(strings.TrimSpace(op[4:]))
+			if err != nil || hs == nil {
+				out.line(cs, op, "bad-op", tag)
+				continue
+			}
+			inFlight, heldOthers := 0, 0
+			for _, x := range hs.att {
+				if !x.ended && (x.isParked || x.held) {
+					inFlight++
+					if x.held && x.k != k {
+						heldOthers++
+					}
 				}
 			}
-			out.line(cs, op, obs, append(flowTags(w, obs), tag)...)
+			a, obs := hs.end(k)
+			if a == nil {
+				out.line(cs, op, obs, tag)
+				continue
+			}
+			book(a.w, obs)
+			tags := append(flowTags(a.w, obs), tag, "end")
+			if heldOthers > 0 && strings.Contains(obs, "inst=1") {
+				tags = append(tags, "installed-while-a-token-request-of-another-attempt-is-under-way")
+			}
+			if a.held && strings.Contains(obs, "inst=1") {
+				tags = append(tags, "installed-after-being-held-at-the-token-endpoint")
+			}
+			if (a.isParked || a.held) && inFlight > 1 {
+				tags = append(tags, fmt.Sprintf("in-flight=%d", inFlight))
+				if strings.Contains(obs, "inst=1") {
+					tags = append(tags, "installed-while-others-in-flight")
+				}
+			}
+			out.line(cs, op, obs, tags...)
+		case strings.HasPrefix(op, "new "):
+			obs := newRun(op)
+			out.line(cs, op, obs, tag, "new", "new:"+strings.Fields(obs+" .")[0])
 		case strings.HasPrefix(op, "www ") || op == "www":
 			out.line(cs, op, wwwRun(strings.Fields(op)[1:]), tag, "www")
 		case strings.HasPrefix(op, "wwwfuzz "):
@@ -1818,8 +2485,13 @@ func TestVerifOAuthFlow(t *testing.T) {
 			out.line("pool", "reset", "bad-pool-parses:"+hxs(s), "reset")
 		}
 	}
-	if runCorpusAndReplay(out, "auth ", "again ") {
+	if runCorpusAndReplay(out, "auth ", "again ", "begin ", "end ", "answer ", "new ") {
 		return
+	}
+	// handler construction: which configurations become a handler, with which redirect URL / application type
+	nrng := verifRng(151)
+	for i, nn := 0, verifN(1500, 20000); i < nn; i++ {
+		runOps(out, fmt.Sprintf("n%d", i), []string{genNew(nrng)}, "gen")
 	}
 	n := verifN(10000, 60000)
 	rng := verifRng(15)
@@ -1828,14 +2500,58 @@ func TestVerifOAuthFlow(t *testing.T) {
 		// authorization server named, every document and the fetcher's answer may change in between)
 		g := &vGen{rng: rng}
 		rounds := []int{1, 1, 1, 1, 1, 1, 1, 1, 1, 1, 1, 2, 2, 2, 2, 2, 2, 3, 3, 4}[rng.Intn(20)]
+		// attempts IN FLIGHT TOGETHER (1 history in 6): after 0-1 sequential rounds, 2-3 further Authorize calls are
+		// started (`begin`) before any of them is finished, then finished (`end`) in a random order, possibly with one
+		// more sequential round in between; the fetcher of such an attempt is answered with its own state, with the
+		// state generated for ANOTHER attempt of the handler (in flight or finished: `s<k>`), or a forged / empty one.
+		conc := 0
+		if rng.Intn(6) == 0 {
+			conc = 2 + rng.Intn(2)
+			rounds = 1 + rng.Intn(2) + conc
+		}
 		var ops []string
+		var open []int
 		bad := false
+		flush := func() {
+			rng.Shuffle(len(open), func(a, b int) { open[a], open[b] = open[b], open[a] })
+			// the fetcher of some of them returns first: their token request is under way (held) while the others finish
+			for _, k := range open {
+				if rng.Intn(100) < 35 {
+					ops = append(ops, fmt.Sprintf("answer %d", k))
+				}
+			}
+			rng.Shuffle(len(open), func(a, b int) { open[a], open[b] = open[b], open[a] })
+			for _, k := range open {
+				ops = append(ops, fmt.Sprintf("end %d", k))
+			}
+			open = nil
+		}
 		for k := 0; k < rounds && !bad; k++ {
-			g.honest = rounds > 1 && g.p(map[bool]int{true: 65, false: 50}[k == 0])
+			g.honest = (rounds > 1 && g.p(map[bool]int{true: 65, false: 50}[k == 0])) || (conc > 0 && g.p(60))
 			w := g.world()
 			w.again = k > 0
+			w.ntFail = w.nts && g.hp(30, 12)
+			w.ps, w.as, w.ts, w.tsAbsent = []string{"mcp:read"}, nil, nil, true
+			if g.p(40) {
+				w.ps = g.scopeSet(35)
+			}
+			if g.p(60) {
+				w.as = g.scopeSet(40)
+			}
+			if g.p(40) {
+				w.ts, w.tsAbsent = g.scopeSet(40), false
+			}
+			w.begin = conc > 0 && k >= rounds-conc
 			if k == 0 {
 				g.base = w
+			}
+			if w.fetch == "R" && k > 0 {
+				switch {
+				case w.begin && g.p(45):
+					w.fState = fmt.Sprintf("s%d", rounds-conc+rng.Intn(conc)) // one of the attempts in flight together (may be this one)
+				case w.begin && g.p(10), !w.begin && g.p(4):
+					w.fState = fmt.Sprintf("s%d", rng.Intn(rounds)) // any attempt of the history: earlier, this, later
+				}
 			}
 			op := w.encode()
 			// always run what a replay would run
@@ -1844,7 +2560,17 @@ func TestVerifOAuthFlow(t *testing.T) {
 				bad = true
 			}
 			ops = append(ops, op)
+			if w.begin {
+				open = append(open, k)
+				if len(open) >= 2 && g.p(15) {
+					// finish one of them while the others stay in flight, before the next one starts
+					j := rng.Intn(len(open))
+					ops = append(ops, fmt.Sprintf("end %d", open[j]))
+					open = append(open[:j], open[j+1:]...)
+				}
+			}
 		}
+		flush()
 		if !bad {
 			runOps(out, fmt.Sprintf("f%d", i), ops, "gen")
 		}
